@@ -206,7 +206,7 @@ def twin(w):
 
 
 # ------------------------------------------------------------------------------------------ operation alphabet
-POSE_UNARY = ["inverse", "copy", "to_array", "to_compact", "position", "orientation", "jacobian_boxplus", "jacobian_inverse", "copy_mutate"]
+POSE_UNARY = ["inverse", "copy", "to_array", "to_compact", "position", "orientation", "jacobian_boxplus", "jacobian_inverse", "copy_mutate", "box_small", "box_big"]
 POSE_BINARY = [
     "add", "sub", "iadd",
     "jacobian_self_oplus_other_wrt_self", "jacobian_self_oplus_other_wrt_self_compact", "jacobian_self_oplus_other_wrt_other", "jacobian_self_oplus_other_wrt_other_compact",
@@ -321,6 +321,15 @@ def apply_op(w, op, tmpdir):
                     c[0] += 1.0
                     return c
                 return _safe(f)
+            if u in ("box_small", "box_big"):
+                # pose [+] increment array: neither operand may be touched (also for increments outside the unit ball)
+                def f():
+                    c = p.COMPACT_DIMENSIONALITY
+                    d = np.array([0.1, -0.2, 0.3, 0.9, -0.8, 0.7][:c]) * (0.1 if u == "box_small" else 1.0)
+                    keep = d.copy()
+                    r = p + d
+                    return ("operand_unchanged", bool(np.array_equal(d, keep)), r)
+                return _safe(f)
             if u in ("inverse", "position", "orientation"):
                 return _safe(lambda: getattr(p, u))
             return _safe(lambda: getattr(p, u)())
@@ -341,14 +350,16 @@ def apply_op(w, op, tmpdir):
 
 # ------------------------------------------------------------------------------------------ check
 def chunks(tier, seed):
-    return [("g", i) for i in range(len(specs(tier, seed)))]
+    # two explorations per graph (they run in parallel): "G" = environment steps + graph/edge/vertex queries, "P" = environment
+    # steps + pose operators and pose Jacobian methods.  Each runs to its own fixpoint.
+    return [("g", i, part) for i in range(len(specs(tier, seed))) for part in ("G", "P")]
 
 
 def run_chunk(chunk, tier, seed):
-    _, i = chunk
+    _, i, part = chunk
     acc = Acc(ID, signature)
     name, spec = specs(tier, seed)[i]
-    res = explore_graph(spec, name, seed)
+    res = explore_graph(spec, name, seed, part)
     acc.evals += 1
     acc.states += res["states"]
     acc.transitions += res["transitions"]
@@ -359,7 +370,7 @@ def run_chunk(chunk, tier, seed):
     acc.outcome("obs_states=%d cache_states=%d" % (res["obs_states"], res["states"]))
     acc.extra["max_depth"] = max(acc.extra.get("max_depth", 0), res["depth"])
     for hist, msgs in res["violations"][:10]:
-        acc.violation({"graph": name, "tier": tier, "seed": seed, "history": hist}, msgs)
+        acc.violation({"graph": name, "tier": tier, "seed": seed, "history": hist, "part": part}, msgs)
     acc.sample({"graph": name, "history_example": res["example"], "states": res["states"], "transitions": res["transitions"]}, 2)
     return acc
 
@@ -451,6 +462,8 @@ def check_transition(base, op, tmp, table):
                 if a != b:
                     what.append("edge #%d" % k)
             msgs.append("query %s changed observable state: %s" % (op, "; ".join(what) or "list structure"))
+        if isinstance(ret, tuple) and len(ret) == 3 and ret[0] == "operand_unchanged" and not ret[1]:
+            msgs.append("query %s mutated its increment operand" % op)
         # path independence: same value as on a freshly constructed twin of the same observable state
         key = (X.digest(obs0), op)
         vd = X.value_digest(ret)
@@ -464,7 +477,7 @@ def check_transition(base, op, tmp, table):
     return msgs, nxt, info
 
 
-def explore_graph(spec, name, seed):
+def explore_graph(spec, name, seed, part="GP"):
     tmp = tempfile.mkdtemp(prefix="vf-c15-")
     try:
         root = World(spec)
@@ -489,7 +502,8 @@ def explore_graph(spec, name, seed):
         capped = False
         while frontier:
             base, hist = frontier.popleft()
-            for op in query_ops(base) + env_ops(base):
+            qops = [o for o in query_ops(base) if (o[0] == "p") == ("P" in part) or part == "GP"]
+            for op in qops + env_ops(base):
                 msgs, nxt, info = check_transition(base, op, tmp, table)
                 transitions += 1
                 twin_compared += info.get("twin", 0)
